@@ -30,6 +30,9 @@ from exactly_lib.util.process_execution.execution_elements import ProcessExecuti
 from exactly_lib.util.process_execution.result_files import DirWithResultFiles
 
 M = Module('C19')
+# written against the real bodies of the validator combinators etc.: contracts of other modules are used only
+# where the arguments have the shapes those contracts are stated for
+M.foreign_contracts = 'fit'
 
 M.trust('subprocess.call(..., timeout=t): when the child has not exited after t seconds it is killed and '
         'subprocess.TimeoutExpired is raised promptly; timeout=None waits without limit (CPython subprocess; '
@@ -1319,6 +1322,9 @@ M.contract('exactly_lib.execution.impl.single_instruction_executor:execute_eleme
            params=dict(executor=Iface(ControlledExecutorI), element=Iface(ElementI),
                        instruction_info=Iface(InstructionInfoI)),
            returns=Any_,
+           # a second, focused contract (the function is verified in full under C01): here the step raises
+           # HardErrorException only, so the INTERNAL_ERROR branch is not reached
+           cover=False,
            ensures={
                'HardErrorException of the step => HARD_ERROR': lambda result, trace:
                (not any([e[0] == APPLY + ':raised' for e in trace]))
